@@ -869,6 +869,7 @@ class SparseArray:
                         else:
                             for i in m: rows[i][n] = value
                     elif vd == 2:
+                        if misbool: m = [i for i, j in enumerate(m) if j]
                         for i, j in zip(m, value): rows[i][n] = j # TODO: With python 3.10, use strict=True zip kwarg
                     else:
                         raise IndexError(
